@@ -1,4 +1,5 @@
 import FV.FlexOps
+import FV.C04Layout
 /-! Operations on mapped containers, on bytes (`FlatVec` through `stavec::GenericVec`, `FlatString`, `FlexVec`),
 mirroring the order and extent of the writes of the code. `s` is the slice the value is mapped from
 (`from_mut_bytes(s)`); bytes outside the value's own bytes are never part of any write. -/
@@ -10,9 +11,10 @@ inductive Op where
   | pushBytes (bs : Bytes)                       -- `FlatString::push(char)` / `push_str`
   | fpush (i : Init) | fpop | ftrunc (n : Nat) | fclear | item (i : Nat) (op : Op)
   | assign (i : Init)
+  | setField (v i : Nat) (x : Bytes)             -- write the image of sized field `i` (of variant `v`) through the mutable accessor
 
 inductive OpRet where
-  | ok | full | none | some (bs : Bytes) | elem (bs : Bytes) | panic | err (e : Err) | empty | noitem
+  | ok | full | none | some (bs : Bytes) | elem (bs : Bytes) | panic | err (e : Err) | empty | noitem | novariant
 deriving DecidableEq
 
 structure OpOut where
@@ -96,9 +98,22 @@ def flexItemRange (l : LenTy) (os : Nat) : Nat → Nat → Nat → Slice → Res
       else if i = 0 then .ok (some (pos + os, next - os))
       else (data.splitAt next).bind fun (_, rest) => flexItemRange l os fuel (i - 1) (pos + next) rest
 
+/-- `self.field = image` / `*binding = image` through `as_mut()`: the image of sized field `i` of the field list `ds`, which
+starts `base` bytes into the value, is written at the position the field walker (`PosIter`) computes for it -/
+def setFieldAt (ds : List Dict) (base i : Nat) (x : Bytes) (bs : Bytes) : Res OpOut :=
+  match ds[i]?, (posList ds 0)[i]? with
+  | some d, some p =>
+    if d.sized = some x.length then (writeAt bs (base + p) x).bind fun b => .ok ⟨.ok, b⟩ else .fault .panic
+  | _, _ => .fault .panic
+
 /-- apply an operation to the value mapped from `s` -/
 def applyOp : Op → Ty → Slice → Res OpOut
   | .assign i, t, s => (assign t i s).bind fun o => .ok ⟨retOfRes o.res, o.bytes⟩
+  | .setField _ i x, .ustruct fs last, s => setFieldAt (dictL fs ++ [last.dict]) 0 i x s.bytes
+  | .setField v i x, .uenum tag vs, s =>
+    (tag.readU s).bind fun t =>
+      if t ≠ v then .ok ⟨.novariant, s.bytes⟩
+      else setFieldAt ((dictLL vs).getD t []) (ceilMul tag.size (max tag.align (alignLL (dictLL vs)))) i x s.bytes
   | .fpush i, .flex it l, s =>
     let al := max l.align it.dict.align
     let n := floorMul s.len al
@@ -135,6 +150,7 @@ def Op.subst (a b : UInt8) : Op → Op
   | .extend xs => .extend (xs.map (substB a b))
   | .resize n x => .resize n (substB a b x)
   | .set i x => .set i (substB a b x)
+  | .setField v i x => .setField v i (substB a b x)
   | .fpush i => .fpush (i.subst a b)
   | .item i op => .item i (op.subst a b)
   | .assign i => .assign (i.subst a b)
